@@ -207,6 +207,33 @@ class C14(props.Prop):
                         f'complete {strat} run',
                         options=spec.get('mut_opts'), declares=sorted(decl))
                     break
+            # 2b. ... in the last hierarchical pass, and in ddmin (inner probe
+            # on the pass lists; skipped if the probed names are gone)
+            required = [cname for o, (g, cname) in sorted(reg['options'].items())
+                        if enabled[o] and not (g in AUTO_GROUPS and
+                                               group_set[g] is None and
+                                               g not in decl)]
+            hp = rec.passes.get('hierarchical')
+            if hp and strat in ('hierarchical', 'hybrid'):
+                missing = [c for c in required if c not in hp[-1]]
+                if missing:
+                    v.violate(
+                        'not-in-last-pass',
+                        f'C14:enabled-mutator-not-in-last-pass:{missing[0]}',
+                        f'enabled mutators {missing[:5]} are not part of the '
+                        f'last hierarchical pass',
+                        options=spec.get('mut_opts'), last_pass=hp[-1][:60])
+            dp = rec.passes.get('ddmin')
+            if dp and strat in ('ddmin', 'hybrid'):
+                union = set(c for p in dp for c in p)
+                missing = [c for c in required
+                           if c not in union and c != 'BinaryReduction']
+                if missing:
+                    v.violate(
+                        'not-in-ddmin',
+                        f'C14:enabled-mutator-not-in-ddmin:{missing[0]}',
+                        f'enabled mutators {missing[:5]} are not scheduled '
+                        f'by ddmin', options=spec.get('mut_opts'))
             # 3. auto-detection disables a group only where allowed
             ns = res.namespace or {}
             for g in reg['groups']:
